@@ -1,4 +1,5 @@
 import NbdimeModel
+import NbdimeProofs.Lemmas.Resolve
 /-
   C09 — merge decisions describe the merge. Model: NbdimeModel/Apply.lean (independent applier).
   Proved here: what the ordering predicate run on every produced decision list means; that
@@ -39,14 +40,19 @@ theorem C09_childrenFirst_sound (ds : List Decision) (h : childrenFirst ds = tru
 /-- a decision resolved to `base` contributes no diff entry, whatever its diffs are -/
 theorem C09_base_noop (base : J) (d : Decision) (h : d.action = "base") :
     resolveAction base d = .ok [] := by
-  unfold resolveAction
+  rw [resolveAction_leaf base d (keyBased_false_of d (by simp [h]) (by simp [h]) (by simp [h]))]
+  unfold resolveLeaf
   simp [h]
 
 /-- choosing a side for a decision applies exactly that side's diff, and nothing when absent -/
 theorem C09_chooseSide_action (base : J) (d : Decision) :
     resolveAction base (chooseSide "local" d) = .ok (d.localDiff.getD []) ∧
     resolveAction base (chooseSide "remote" d) = .ok (d.remoteDiff.getD []) := by
-  constructor <;> (unfold resolveAction chooseSide; simp)
+  constructor
+  · rw [resolveAction_leaf _ _ (by simp [chooseSide, Decision.keyBased])]
+    unfold resolveLeaf chooseSide; simp
+  · rw [resolveAction_leaf _ _ (by simp [chooseSide, Decision.keyBased])]
+    unfold resolveLeaf chooseSide; simp
 
 /-- a single decision on the root path: applying it is patching base with its resolved diff -/
 theorem C09_apply_single_root (base : J) (d : Decision) (hp : d.path = []) :
